@@ -39,24 +39,27 @@ static std::string cs_str(const cctz::civil_second& c) {
   return b;
 }
 
-static void digest_zone(const cctz::time_zone& tz, bool ok, const std::vector<int64_t>& extra, Digest* d) {
+// `reverse`: ask the per-instant queries in the opposite order (the digest is still accumulated in canonical order):
+// the outcome must be a function of the bytes alone, not of the order in which the zone is asked.
+static void digest_zone(const cctz::time_zone& tz, bool ok, const std::vector<int64_t>& extra, Digest* d, bool reverse = false) {
   d->add(ok ? "ok" : "fail");
   d->add(tz == cctz::utc_time_zone() ? "utc" : "not-utc");
   d->add(tz.description());
   std::vector<int64_t> inst(kFixed, kFixed + sizeof kFixed / sizeof kFixed[0]);
   inst.insert(inst.end(), extra.begin(), extra.end());
-  for (int64_t t : inst) {
+  std::vector<std::string> ans(inst.size());
+  for (size_t k = 0; k < inst.size(); ++k) {
+    size_t i = reverse ? inst.size() - 1 - k : k;
+    int64_t t = inst[i];
     auto al = tz.lookup(mk(t));
-    d->add(cs_str(al.cs));
-    d->addi(al.offset);
-    d->addi(al.is_dst);
-    d->add(al.abbr ? al.abbr : "(null)");
     auto cl = tz.lookup(al.cs);
-    d->addi(cl.kind);
-    d->addi(un(cl.pre));
-    d->addi(un(cl.trans));
-    d->addi(un(cl.post));
+    // a second civil query one hour earlier: reached with a different remembered index depending on the order
+    auto cl2 = tz.lookup(al.cs - 3600);
+    ans[i] = cs_str(al.cs) + "," + std::to_string(al.offset) + "," + std::to_string(al.is_dst) + "," + (al.abbr ? al.abbr : "(null)") + "," +
+             std::to_string(cl.kind) + "," + std::to_string(un(cl.pre)) + "," + std::to_string(un(cl.trans)) + "," + std::to_string(un(cl.post)) + "," +
+             std::to_string(cl2.kind) + "," + std::to_string(un(cl2.pre)) + "," + std::to_string(un(cl2.post));
   }
+  for (auto& a : ans) d->add(a);
   for (auto cs : {cctz::civil_second::max(), cctz::civil_second::min(), cctz::civil_second(2024, 3, 10, 2, 30, 0),
                   cctz::civil_second(1, 1, 1, 0, 0, 0), cctz::civil_second(-9999, 6, 15, 12, 0, 0), cctz::civil_second(292277026596LL, 12, 4, 15, 30, 7)}) {
     auto cl = tz.lookup(cs);
